@@ -149,11 +149,11 @@ Definition serve (c : nat) (name : bytes) (args : list bytes) (now : Z) (s : ser
   else if bytes_eqb name n_EXEC then
     if negb (c_prepare x) then finish (put_conn c conn_new s, [WErr])
     else if c_error x then finish (put_conn c conn_new s, [WErr])
+    else if existsb (fun kv => snd kv) (c_watch x) then finish (put_conn c conn_new s, [WNullBulk])
     else match c_queue x with
          | [] => finish (put_conn c conn_new s, [WArr 0])
          | q =>
-             if existsb (fun kv => snd kv) (c_watch x) then finish (put_conn c conn_new s, [WNullBulk])
-             else match run_queue q now (s_db s) with
+             match run_queue q now (s_db s) with
                   | None => None
                   | Some (acts, d') =>
                       (* signals raised by the queue hit the registry; then the deferred reset *)
